@@ -246,10 +246,122 @@ fn job(ctx: &Ctx, job: usize, iters: u64) -> Stats {
     st
 }
 
+/// Tables with MANY columns (60..130 free variables, linear diagrams): too wide for truth tables, so
+/// every printed row is judged by three-valued evaluation of the formula under the row's partial
+/// assignment (definitely the printed value), rows are compared pairwise for disjointness, and the
+/// number of covered assignments (sum of 2^#Any, exact in u128) is compared with the known count.
+fn wide_case(ctx: &Ctx, st: &mut Stats, n: usize, shape: &str, filter: Option<&str>, channel: u8, with_v: bool) {
+    use crate::cli::Cell;
+    let names: Vec<String> = (0..n).map(|i| format!("x{:03}", i)).collect();
+    let (text, true_count): (String, u128) = match shape {
+        "or" => (names.join(" | "), (1u128 << n) - 1),
+        "and" => (names.join(" & "), 1),
+        // x0 => (x1 => (... => x_last)) : false only when all but the last are true and the last is false
+        _ => (names.join(" => "), (1u128 << n) - 1),
+    };
+    let total: u128 = 1u128 << n;
+    let inv = Inv { text: text.clone(), channel, filter: filter.map(|s| s.to_string()), t: true, v: with_v, ..Default::default() };
+    st.evals += 1;
+    st.bump("wide_tables");
+    let out = invoke(ctx, &inv, &format!("wide-{}-{}-{}-{}", n, shape, filter.unwrap_or("none"), channel));
+    let case = || json!({"kind": "wide", "n": n, "shape": shape, "filter": filter, "channel": channel, "v": with_v});
+    if out.timed_out || out.budget_exceeded() {
+        st.bump("out_of_budget(inconclusive case)");
+        return;
+    }
+    let desc = format!("rsbdd `{} .. {}` ({} variables, shape {}){}{}", names[0], names[n - 1], n, shape, filter.map(|f| format!(" -f {}", f)).unwrap_or_default(), if with_v { " -t -v" } else { " -t" });
+    if !out.ok() {
+        st.violate("c10.run", format!("C10:run-failed:{}", out.panic_site()), format!("{} failed: {}\n{}", desc, out.status_string(), out.stderr_str().lines().filter(|l| !l.starts_with("finished ")).take(5).collect::<Vec<_>>().join("\n")), case());
+        return;
+    }
+    let so = out.stdout_str();
+    let parsed = match parse_stdout(&so, &inv) {
+        Ok(p) => p,
+        Err(e) => {
+            st.violate("c10.format", "C10:unparsable-output".into(), format!("{}: {}", desc, e), case());
+            return;
+        }
+    };
+    let table = parsed.table.unwrap();
+    let mut sorted = table.header.clone();
+    sorted.sort();
+    if sorted != names {
+        st.violate("c10.table", "C10:table:header".into(), format!("{}: the header does not list exactly the {} free variables", desc, n), case());
+        return;
+    }
+    let Ok(ast) = crate::refsyn::parse_text(&text) else { return };
+    let Ok(prob) = crate::solve3::compile(&ast) else { return };
+    let col: Vec<usize> = table.header.iter().map(|h| prob.index[h]).collect();
+    let fk = filter_kind(&inv.filter).unwrap_or("any");
+    let mut covered: u128 = 0;
+    for (k, (cells, res)) in table.rows.iter().enumerate() {
+        let mut asg: Vec<(usize, bool)> = Vec::new();
+        let mut anys = 0u32;
+        for (i, c) in cells.iter().enumerate() {
+            match c {
+                Cell::True => asg.push((col[i], true)),
+                Cell::False => asg.push((col[i], false)),
+                Cell::Any => anys += 1,
+            }
+        }
+        if crate::solve3::probe(&prob, &asg, true) != Some(*res) {
+            st.violate("c10.table", "C10:table:row-value".into(), format!("{}: row {} says {} but the formula is not definitely {} on the assignments the row covers\n{}", desc, k + 1, res, res, so.lines().nth(k + 2).unwrap_or("")), case());
+            return;
+        }
+        if (fk == "true" && !*res) || (fk == "false" && *res) {
+            st.violate("c10.table", "C10:table:filter".into(), format!("{}: row {} contradicts the filter", desc, k + 1), case());
+            return;
+        }
+        covered += 1u128 << anys;
+        for (cells2, _) in table.rows.iter().take(k) {
+            let disjoint = cells.iter().zip(cells2.iter()).any(|(a, b)| (*a == Cell::True && *b == Cell::False) || (*a == Cell::False && *b == Cell::True));
+            if !disjoint {
+                st.violate("c10.table", "C10:table:rows-overlap".into(), format!("{}: row {} overlaps an earlier row", desc, k + 1), case());
+                return;
+            }
+        }
+    }
+    let want = match fk {
+        "true" => true_count,
+        "false" => total - true_count,
+        _ => total,
+    };
+    if covered != want {
+        st.violate("c10.table", "C10:table:coverage".into(), format!("{}: the rows cover {} assignments, expected {} (filter {})", desc, covered, want, fk), case());
+        return;
+    }
+    if with_v {
+        let sat_lines: u128 = parsed.vlines.iter().map(|items| 1u128 << items.iter().filter(|x| x.1).count()).sum();
+        if sat_lines != true_count {
+            st.violate("c10.vlines", "C10:-v:coverage".into(), format!("{}: the -v lines cover {} assignments, the formula has {} satisfying ones", desc, sat_lines, true_count), case());
+            return;
+        }
+    }
+    st.add("rows_checked", table.rows.len() as u64);
+    st.add("wide_table_columns", n as u64);
+    st.nt.insert(mix(util::hash_str(shape), mix(n as u64, util::hash_str(fk) ^ channel as u64)));
+}
+
 pub fn run(ctx: &Ctx) -> (Stats, Spec) {
     let iters = ctx.tier.pick(500u64, 8_000u64);
     let parts = util::par_jobs(16, |j| job(ctx, j, iters));
     let mut st = crate::report::merge_all(parts);
+    // wide tables: 60..130 columns
+    let widths: Vec<usize> = ctx.tier.pick(vec![31, 32, 33, 63, 64, 65, 66, 100], vec![31, 32, 33, 63, 64, 65, 66, 67, 70, 96, 100, 127, 128, 129]);
+    let mut wide: Vec<(usize, &str, Option<&str>, u8, bool)> = Vec::new();
+    for (i, n) in widths.iter().enumerate() {
+        for (j, shape) in ["or", "and", "implies"].iter().enumerate() {
+            let f = [None, Some("t"), Some("f")][(i + j) % 3];
+            wide.push((*n, shape, f, ((i + j) % 3) as u8, (i + j) % 2 == 0));
+        }
+    }
+    let parts = util::par_jobs(wide.len(), |j| {
+        let mut s = Stats::new();
+        let (n, shape, f, ch, v) = wide[j];
+        wide_case(ctx, &mut s, n, shape, f, ch, v);
+        s
+    });
+    st.merge(crate::report::merge_all(parts));
     // fixed probes: every accepted filter spelling, 0 free variables, long and non-ASCII names, superset orderings
     let mut k = 0;
     for f in TRUE_SPELLINGS.iter().chain(FALSE_SPELLINGS.iter()).chain(ANY_SPELLINGS.iter()) {
@@ -266,7 +378,7 @@ pub fn run(ctx: &Ctx) -> (Stats, Spec) {
         check_inv(ctx, &mut st, &inv, &format!("fixed-{}", k));
     }
     let spec = Spec {
-        rule: "random formulas (<= 6 names, plain and non-ASCII / primed / long names, 0..6 free variables) x filter in every accepted spelling or absent x channel (--evaluate, file, stdin) x ordering file (absent, permutation, subset, superset with unused names, repeats, separators incl. keywords / comments / numbers) x {-t, -v, -t -v, -m, -b N, -r}; every third case is re-run through the other two channels and every fourth with -b 1 and -b 2 (stdout must be identical). distinct = (formula, option set); non-trivial = >= 2 free variables and >= 3 printed rows.".into(),
+        rule: "random formulas (<= 6 names, plain and non-ASCII / primed / long names, 0..6 free variables) x filter in every accepted spelling or absent x channel (--evaluate, file, stdin) x ordering file (absent, permutation, subset, superset with unused names, repeats, separators incl. keywords / comments / numbers) x {-t, -v, -t -v, -m, -b N, -r}; tables with 31..130 columns (or / and / implication chains; rows judged by three-valued evaluation, pairwise disjointness and an exact 128-bit count of covered assignments); every third case is re-run through the other two channels and every fourth with -b 1 and -b 2 (stdout must be identical). distinct = (formula, option set); non-trivial = >= 2 free variables and >= 3 printed rows.".into(),
         assumptions: vec![
             "with -m the printed diagram is a model: rows must partition and true rows must satisfy the formula (their number is C07's subject)".into(),
             "rejected filter spellings and inputs outside the reference's evaluable range are not judged here (C12)".into(),
@@ -279,6 +391,7 @@ pub fn run(ctx: &Ctx) -> (Stats, Spec) {
             ("channel_comparisons".into(), 100, "channels not compared".into()),
             ("benchmark_comparisons".into(), 50, "-b not compared".into()),
             ("rows_checked".into(), 3_000, "too few rows".into()),
+            ("wide_tables".into(), 20, "tables with many columns not exercised".into()),
             ("distinct_nontrivial".into(), 300, "too few non-trivial invocations".into()),
         ],
     };
@@ -286,6 +399,15 @@ pub fn run(ctx: &Ctx) -> (Stats, Spec) {
 }
 
 pub fn replay(ctx: &Ctx, _monitor: &str, case: &Value, st: &mut Stats) {
+    if case.get("kind").and_then(|k| k.as_str()) == Some("wide") {
+        let n = case.get("n").and_then(|x| x.as_u64()).unwrap_or(65) as usize;
+        let shape = case.get("shape").and_then(|x| x.as_str()).unwrap_or("or").to_string();
+        let filter = case.get("filter").and_then(|x| x.as_str()).map(|s| s.to_string());
+        let ch = case.get("channel").and_then(|x| x.as_u64()).unwrap_or(0) as u8;
+        let v = case.get("v").and_then(|x| x.as_bool()).unwrap_or(false);
+        wide_case(ctx, st, n, &shape, filter.as_deref(), ch, v);
+        return;
+    }
     let inv = Inv::from_json(case);
     let base = check_inv(ctx, st, &inv, "replay");
     if let Some(base) = base {
